@@ -28,6 +28,8 @@ pub struct Report {
     pub sets: BTreeMap<String, Vec<u64>>,
     /// `Some(hash)` if this run is non-trivial for the property being checked
     pub nontrivial: Option<u64>,
+    /// how many executions this report covers (0 is read as 1)
+    pub executions: u64,
 }
 
 pub trait Engine: Sync + Send {
